@@ -2,6 +2,7 @@ use crate::runner::Monitor;
 
 pub mod c01;
 pub mod c02;
+pub mod c03;
 pub mod c10;
 pub mod c12;
 pub mod c13;
@@ -16,6 +17,7 @@ pub fn by_id(id: &str) -> Option<Box<dyn Monitor>> {
     Some(match id {
         "C01" => Box::new(c01::C01),
         "C02" => Box::new(c02::C02),
+        "C03" => Box::new(c03::C03),
         "C10" => Box::new(c10::C10::new()),
         "C12" => Box::new(c12::C12),
         "C13" => Box::new(c13::C13),
